@@ -123,6 +123,11 @@ def check_built(ctx, cfg, exp, b, stage):
             ctx.violation('C01/%s/exception/%s' % (fn, type(b.exc).__name__),
                           '%s raised %r for a configuration the reference builds' % (fn, b.exc), rep)
         return None
+    if cfg['kind'] == 'interest' and any(c['t'] == pk.T_PD and c['l'] != 32 for c in cfg['name']):
+        ctx.violation('C01/make_interest/digest-placeholder-not-32-bytes/not-refused',
+                      'make_interest accepted a ParametersSha256Digest placeholder of %s bytes and emitted %s' % (
+                          [c['l'] for c in cfg['name'] if c['t'] == pk.T_PD], b.wire[:60].hex()), rep)
+        return None
     try:
         obs = pk.layout(b.wire)
     except st.TlvError as e:
@@ -147,6 +152,191 @@ def check_built(ctx, cfg, exp, b, stage):
         ctx.violation('C01/%s/field/%s' % ('parse_interest' if cfg['kind'] == 'interest' else 'parse_data', f),
                       'parse of the emitted wire does not return the caller\'s %s' % f, rep)
     return obs
+
+
+# ---------------------------------------------------------------- held outputs and parse results (NdnPacketsHold)
+
+class HoldWorld:
+    """Everything make_* / parse_* returned in one history, kept alive, with a snapshot of what it must read as."""
+
+    def __init__(self, ctx, pool):
+        self.ctx, self.pool = ctx, pool
+        self.wires, self.objs = [], []
+
+    def make(self, kind, meta):
+        rng = self.ctx.rng
+        cfg = pk.rand_cfg(rng, kind, maxc=4, big=False)
+        cfg['sg'] = rng.choice([dict(pk.NO_SG), dict(pk.NO_SG, kind='hmac', r=32, a=32, st=True, haskl=True, kl=[{'t': 8, 'l': 2}]),
+                                dict(pk.NO_SG, kind='syn', r=40, a=rng.randint(0, 40), st=True),
+                                dict(pk.NO_SG, kind='ecdsa', r=72, a=-1, st=True, haskl=True, kl=[{'t': 8, 'l': 2}])])
+        if kind == 'data':
+            cfg['meta'] = {'p': True, 'ct': 1, 'fp': rng.choice([0, 2]), 'fbi': -1} if meta else {'p': False, 'ct': 0, 'fp': 0, 'fbi': -1}
+            cfg['content'] = max(cfg['content'], 0)
+        else:
+            cfg['name'] = [c for c in cfg['name'] if c['t'] != pk.T_PD]
+            if not meta:
+                cfg.update(cbp=False, mbf=False, nonce=False, life=0, hop=False, fh=[])
+        b = pk.build(cfg, rng, self.pool, target=False)
+        if b.exc is not None:
+            raise MachineryError('hold history: %s refused a plain configuration: %r' % (kind, b.exc))
+        self.wires.append({'kind': kind, 'raw': b.raw, 'snap': b.wire, 'meta': meta,
+                           'fn': getattr(b, 'raw_final_name', None), 'fn_snap': [bytes(c) for c in b.raw_final_name] if kind == 'interest' else None})
+
+    @staticmethod
+    def view(kind, res):
+        name, par, payload, sp = res
+        if kind == 'data':
+            pv = (par.content_type, par.freshness_period, None if par.final_block_id is None else bytes(par.final_block_id))
+        else:
+            pv = (bool(par.can_be_prefix), bool(par.must_be_fresh), par.nonce, par.lifetime, par.hop_limit,
+                  [[bytes(c) for c in n] for n in par.forwarding_hint])
+        return ([bytes(c) for c in name], pv, None if payload is None else bytes(payload),
+                b''.join(bytes(c) for c in (sp.signature_covered_part or [])),
+                None if sp.signature_value_buf is None else bytes(sp.signature_value_buf),
+                b''.join(bytes(c) for c in (sp.digest_covered_part or [])),
+                None if sp.digest_value_buf is None else bytes(sp.digest_value_buf))
+
+    def parse(self, i):
+        w = self.wires[i - 1]
+        try:
+            res = (parse_interest if w['kind'] == 'interest' else parse_data)(w['raw'])
+            want = self.view(w['kind'], res)
+            if not w['meta']:
+                # the wire carries no parameters: the parser's defaults, whatever was done to earlier results
+                dflt = (want[1][0] in (0, None), want[1][1], want[1][2]) == (True, None, None) if w['kind'] == 'data' \
+                    else want[1] == (False, False, None, None, None, [])
+                if not dflt:
+                    want = None
+            self.objs.append({'kind': w['kind'], 'res': res, 'want': want})
+        except Exception:  # noqa: a held wire that no longer parses (it changed) - shows as "not the same" below
+            self.objs.append({'kind': w['kind'], 'res': None, 'want': None})
+
+    def edit(self, j):
+        """the caller edits the parameter object it was handed (it owns it)"""
+        o = self.objs[j - 1]
+        if o['res'] is None or o['want'] is None:
+            return
+        par = o['res'][1]
+        name, pv, payload, cov, sv, dcov, dv = o['want']
+        if o['kind'] == 'data':
+            # fresh values every time: state shared between parse results must show up in every history
+            new = (self.ctx.rng.randrange(3, 250), self.ctx.rng.randrange(1000, 10 ** 6), b'\x08\x02' + self.ctx.rng.randbytes(2))
+            par.content_type, par.freshness_period, par.final_block_id = new
+            pv = new
+        else:
+            life, hint = self.ctx.rng.randrange(10 ** 4, 10 ** 6), [b'\x08\x03' + self.ctx.rng.randbytes(3)]
+            par.can_be_prefix, par.lifetime = not par.can_be_prefix, life
+            par.forwarding_hint.append(hint)
+            pv = (not pv[0], pv[1], pv[2], life, pv[4], pv[5] + [hint])
+        o['want'] = (name, pv, payload, cov, sv, dcov, dv)
+
+    def observe(self):
+        ws = [bytes(w['raw']) == w['snap'] and (w['fn'] is None or [bytes(c) for c in w['fn']] == w['fn_snap']) for w in self.wires]
+        os_ = []
+        for o in self.objs:
+            try:
+                os_.append(o['res'] is not None and self.view(o['kind'], o['res']) == o['want'])
+            except Exception:  # noqa
+                os_.append(False)
+        return ws, os_
+
+
+def run_hold_history(ctx, steps, pool):
+    w = HoldWorld(ctx, pool)
+    ev = []
+    for stp in steps:
+        if stp[0] == 'Make':
+            w.make(stp[1], bool(stp[2]))
+            e = {'a': 'Make', 'kind': stp[1], 'meta': bool(stp[2])}
+        elif stp[0] == 'Parse':
+            w.parse(stp[1])
+            e = {'a': 'Parse', 'i': stp[1]}
+        else:
+            w.edit(stp[1])
+            e = {'a': 'Edit', 'j': stp[1]}
+        e['wsame'], e['osame'] = w.observe()
+        ev.append(e)
+    return {'ev': ev, 'kinds': [x['kind'] for x in w.wires], 'okinds': [o['kind'] for o in w.objs]}
+
+
+def judge_hold(ctx, hists, stage):
+    rej = pk.judge(ctx, 'NdnPacketsHoldTrace', 'NdnPacketsHoldTrace.cfg', [{'ev': h['ev']} for h in hists], 'c01-hold-' + stage)
+    for i, at in rej:
+        h = hists[i]
+        k = int(str(at).strip() or 0)
+        e = h['ev'][k - 1] if 0 < k <= len(h['ev']) else None
+        if e is None:
+            what, who = 'end', 'x'
+        elif not all(e['wsame']):
+            j = e['wsame'].index(False)
+            what, who = 'returned-wire-changed', 'make_interest' if h['kinds'][j] == 'interest' else 'make_data'
+        else:
+            j = e['osame'].index(False) if not all(e['osame']) else 0
+            what, who = 'parse-result-changed', 'parse_interest' if h['okinds'][j] == 'interest' else 'parse_data'
+        ctx.violation('C01/%s/held/%s/after-%s' % (who, what, e['a'] if e else 'end'),
+                      'something the library returned earlier and the caller kept no longer reads as it did after a later %s: events %s'
+                      % (e['a'] if e else '?', [{k_: v for k_, v in x.items()} for x in h['ev']]),
+                      {'kind': 'hold-history', 'steps': [[x['a']] + [x[f] for f in ('kind', 'meta', 'i', 'j') if f in x] for x in h['ev']], 'rejected_at': k})
+    return rej
+
+
+def hold_stage_a(ctx):
+    cp = os.path.join(tlc.BUILD, 'NdnPacketsHold.cfg')
+    c = {'MaxSteps': ctx.pick(4, 5), 'DevScratch': 'FALSE', 'DevSharedDefault': 'FALSE'}
+    tlc.write_cfg(cp, constants=c, invariants=['HeldStable'])
+    r = tlc.run('NdnPacketsHold', cp, workers=2, heavy=False)
+    ctx.add_tlc('NdnPacketsHold MaxSteps=%d' % c['MaxSteps'], r)
+    if r.violated:
+        ctx.violation('C01/spec/NdnPacketsHold/%s' % r.violated, 'TLC: %s violated' % r.violated, {'trace': r.errtrace[:2000]})
+    for dev in ('DevScratch', 'DevSharedDefault'):
+        tlc.write_cfg(cp, constants=dict(c, MaxSteps=4, **{dev: 'TRUE'}), invariants=['HeldStable'])
+        if tlc.run('NdnPacketsHold', cp, workers=1, heavy=False).violated != 'HeldStable':
+            raise MachineryError('HeldStable does not refute the deviation %s' % dev)
+
+
+def hold_stage_b(ctx, pool):
+    from harness import graph
+    cp = os.path.join(tlc.BUILD, 'NdnPacketsHold_g.cfg')
+    m = ctx.pick(4, 5)
+    tlc.write_cfg(cp, constants={'MaxSteps': m, 'DevScratch': 'FALSE', 'DevSharedDefault': 'FALSE'}, invariants=['HeldStable'])
+    g = graph.dump('NdnPacketsHold', cp, workers=2)
+    ctx.add_tlc('NdnPacketsHold graph MaxSteps=%d (%d edges)' % (m, g.n_edges), g.tlc)
+    paths = graph.edge_cover_paths(g, max_len=m)
+    hists = []
+    for init, path in paths:
+        steps = [(a,) + tuple(args) for a, args, _ in path]
+        hists.append(run_hold_history(ctx, steps, pool))
+        ctx.traces += 1
+        ctx.evaluations += len(steps)
+        if len(steps) >= 3:
+            ctx.nt(['B-hold', steps])
+    rej = judge_hold(ctx, hists, 'B')
+    ctx.note('B: %d cover paths of the hold graph (%d states, %d edges) replayed with everything kept alive, %d rejected' % (
+        len(paths), len(g.state), g.n_edges, len(rej)))
+
+
+def hold_stage_c(ctx, pool):
+    hists = []
+    for _ in range(ctx.pick(40, 1500)):
+        steps, nw, no, edited = [], 0, 0, set()
+        for _ in range(ctx.rng.randint(4, ctx.pick(10, 24))):
+            x = ctx.rng.random()
+            if nw == 0 or x < 0.4:
+                steps.append(('Make', ctx.rng.choice(['data', 'interest']), ctx.rng.random() < 0.5))
+                nw += 1
+            elif no == 0 or x < 0.75 or len(edited) == no:
+                steps.append(('Parse', ctx.rng.randint(1, nw)))
+                no += 1
+            else:
+                j = ctx.rng.choice([k for k in range(1, no + 1) if k not in edited])
+                edited.add(j)
+                steps.append(('Edit', j))
+        hists.append(run_hold_history(ctx, steps, pool))
+        ctx.traces += 1
+        ctx.evaluations += len(steps)
+        ctx.nt(['C-hold', steps])
+    rej = judge_hold(ctx, hists, 'C')
+    ctx.note('C: %d random hold histories judged by TLC, %d rejected' % (len(hists), len(rej)))
 
 
 def run(ctx):
@@ -179,6 +369,7 @@ def run(ctx):
         if missing or len(wit) < 10:
             raise MachineryError('vacuous: situations not in the configuration space: %s' % missing)
         ctx.note('A: witnesses reachable: %s' % ', '.join(sorted(wit)))
+        hold_stage_a(ctx)
     if 'B' in ctx.stages:
         lines, r = pk.gen(ctx, scale, 'c01')
         ctx.note('B: TLC enumerated %d configurations' % len(lines))
@@ -194,6 +385,7 @@ def run(ctx):
                 ctx.nt(['B', cfg])
             ctx.sample({'kind': 'B-config', 'cfg': cfg, 'expected_layout': exp['lay'][:6]}, limit=2)
         ctx.note('B: %d built, %d expected refusals' % (len(lines) - refused, refused))
+        hold_stage_b(ctx, pool)
     if 'C' in ctx.stages:
         recs = []
         n = ctx.pick(2500, 40000)
@@ -221,6 +413,7 @@ def run(ctx):
         ctx.traces += len(recs)
         ctx.evaluations += len(recs)
         ctx.note('C: %d recorded calls judged by TLC, %d rejected' % (len(recs), len(rejected)))
+        hold_stage_c(ctx, pool)
         for i, code in rejected:
             rec = recs[i]
             what = {'2': 'exception', '3': 'layout/differs', '4': 'layout/not-well-tiled'}.get(str(code).strip(), 'clause-%s' % code)
@@ -258,6 +451,14 @@ def replay(ctx, path):
     with open(path) as f:
         obj = json.load(f)
     pool = pk.Pool(ctx.rng)
+    if obj.get('kind') == 'hold-history':
+        h = run_hold_history(ctx, [tuple(x) for x in obj['steps']], pool)
+        for e in h['ev']:
+            print(e)
+        rej = judge_hold(ctx, [h], 'replay')
+        for v in ctx.violations:
+            print('reproduced:', v['sig'])
+        return 1 if ctx.violations else 0
     if obj.get('kind') == 'trace':
         rec = obj['rec']
         rej = pk.judge(ctx, 'NdnPacketsTrace', 'NdnPacketsTrace.cfg', [rec], 'c01-replay')
